@@ -52,7 +52,11 @@ Pool == <<
   D("ABC",   "pat", <<Star(<<AltF(<< <<Lit(97)>>, <<Lit(98)>> >>)>>), Lit(99)>>, ""),  \* /(a|b)*c/
   D("MINUS", "str", Lits(<<45>>), ""),                                         \* "-"
   D("WS",    "pre", <<Set(<<Ch(9), Ch(10), Ch(13), Ch(32)>>)>>, "$WS"),
-  D("HEX",   "pat", <<Lit(48), Lit(120), Plus(<<Set(<<Cls("xdigit")>>)>>)>>, "")   \* /0x[[:xdigit:]]+/
+  D("HEX",   "pat", <<Lit(48), Lit(120), Plus(<<Set(<<Cls("xdigit")>>)>>)>>, ""),  \* /0x[[:xdigit:]]+/
+  \* patterns that match the empty text (legal, unusual): the start state of the scanner automaton is accepting
+  D("AS",    "pat", <<Star(<<Lit(97)>>)>>, ""),                                  \* /a*/
+  D("BS",    "pat", <<Star(<<Lit(98)>>)>>, ""),                                  \* /b*/   conflicts with /a*/ on the empty text only
+  D("OPTAB", "pat", <<Opt(<<Lit(97), Lit(98)>>)>>, "")                           \* /(ab)?/
 >>
 
 Idx == 1..PoolSize
